@@ -2,26 +2,28 @@
 # Confirms seeded mutations from /tmp/wt/C??/out: patch applies; test suite passes with it; demo fails with it and passes without.
 # usage: verify_seeded.sh <outdir-list...>   results: /tmp/wt/verify/results.txt
 set -u
-V=/tmp/wt/verify
-RES=/tmp/wt/verify_results.txt
+V=${VERIFY_WT:-/tmp/wt/verify}
+RES=${VERIFY_RES:-/tmp/wt/verify_results.txt}
+OFF=${VERIFY_OFFSET:-0}
 if [ ! -d $V ]; then git -C /repo worktree add -q --detach $V HEAD; fi
 git -C $V checkout -q --detach $(git -C /repo rev-parse HEAD) 2>/dev/null
 git -C $V checkout -- . 
 cmake -G Ninja -S $V -B $V/_build -DCMAKE_BUILD_TYPE=Release >/dev/null 2>&1
 for d in "$@"; do
   pid=$(basename $(dirname $d))
-  for i in 1 2; do
+  for i in 1 2 3; do
     p=$d/patch$i.diff; [ -f $p ] || continue
-    tag=$pid-$i
+    tag=$pid-$((i+OFF))
     grep -q "^$tag " $RES 2>/dev/null && continue
     flags=$(python3 -c "import json,re;m=json.load(open('$d/meta$i.json'));b=m.get('demo_build','');print(' '.join(re.findall(r'-fsanitize=\S+|-O\d|-g\b',b)))" 2>/dev/null)
     git -C $V checkout -- . 
     # demo without mutation
-    clang++ -std=gnu++17 -I$V/inc -pthread $flags $d/demo$i.cpp -o $V/demo_clean 2>/tmp/wt/verify_cc.log || { echo "$tag DEMO-COMPILE-FAIL-CLEAN" >> $RES; continue; }
+    clang++ -std=gnu++17 -I$V/inc -pthread $flags $d/demo$i.cpp -o $V/demo_clean 2>$V/verify_cc.log || { echo "$tag DEMO-COMPILE-FAIL-CLEAN" >> $RES; continue; }
     timeout 300 $V/demo_clean >/dev/null 2>&1; rc_clean=$?
     if ! git -C $V apply $p 2>/dev/null; then echo "$tag PATCH-DOES-NOT-APPLY" >> $RES; continue; fi
-    if ! cmake --build $V/_build -j16 >/tmp/wt/verify_build.log 2>&1; then echo "$tag BUILD-FAIL" >> $RES; git -C $V checkout -- .; continue; fi
-    timeout 600 $V/_build/test/libcappuccino_tests >/tmp/wt/verify_test.log 2>&1; rc_test=$?
+    if ! cmake --build $V/_build -j16 >$V/verify_build.log 2>&1; then echo "$tag BUILD-FAIL" >> $RES; git -C $V checkout -- .; continue; fi
+    timeout 600 $V/_build/test/libcappuccino_tests >$V/verify_test.log 2>&1; rc_test=$?
+    if [ $rc_test -ne 0 ]; then sleep 5; timeout 600 $V/_build/test/libcappuccino_tests >$V/verify_test.log 2>&1; rc_test=$?; fi
     clang++ -std=gnu++17 -I$V/inc -pthread $flags $d/demo$i.cpp -o $V/demo_mut 2>/dev/null || { echo "$tag DEMO-COMPILE-FAIL-MUT" >> $RES; git -C $V checkout -- .; continue; }
     timeout 300 $V/demo_mut >/dev/null 2>&1; rc_mut=$?
     git -C $V checkout -- .
